@@ -443,8 +443,8 @@ class Log(registering.StoriedRegistrar):
             self.paths = []  # remove stale rotate paths
 
         self.close()  #innocuous to call close() on unopened file
-        if os.path.exists(self.path):
-            self.first = False
+        if os.path.exists(self.path) and os.path.getsize(self.path) > 0:
+            self.first = False  # an existing but empty file still needs its header
 
         try:
             self.file = ocfn(self.path, 'a+')  # append pick up where left off
